@@ -296,6 +296,12 @@ def _to_sparse(dense, fmt, style=None):
     import scipy.sparse as sps
 
     D = np.asarray(dense, dtype=float)
+    if style == "int":
+        # constant matrices written with integer literals: integer dtype whenever every entry is integral
+        M = sps.coo_matrix(D)
+        if np.all(D == np.round(D)) and np.all(np.abs(D) < 2**31):
+            M = M.astype(np.int64)
+        return M if fmt == "coo" else (M.tocsr() if fmt == "csr" else M.tocsc())
     if style is None:
         M = sps.coo_matrix(D)
         if fmt == "coo":
